@@ -115,6 +115,8 @@ def build(extra_rewrites=None, lock_overlay=False, buffer_min=None, quiet=True):
     # 1a. generated directory shape instances
     from . import shapes
     shapes.write_rs(os.path.join(hdst, "h_dir_gen.rs"))
+    from . import seqs
+    seqs.write_rs(os.path.join(hdst, "h_cache_gen.rs"))
     # 1b. case-mapping table = the real cfb_uppercase_char evaluated natively on SIGMA
     info["uptable"] = gen_uptable(src, hdst, root)
     # 2. error macros: payload-free errors (KIND taken from the real file)
